@@ -13,7 +13,7 @@
 From Coq Require Import List NArith ZArith Arith Bool Lia.
 From RecordUpdate Require Import RecordUpdate.
 From Iodine Require Import Generated.SrcConsts Base Codec Hostname DnsName DnsMsg Domain Server
-  ServerFrame ServerAuthDefs ServerAuthProofs ServerAuthSteps ServerIsolationProofs ServerAuthFinal Properties_C03.
+  ServerFrame ServerAuthDefs ServerAuthProofs ServerAuthSteps ServerIsolationProofs ServerAuthFinal.
 From Iodine Require Users UsersProofs.
 Import ListNotations.
 Local Open Scope N_scope.
